@@ -79,6 +79,7 @@ class MediaList(cssutils.util._NewListBase):
         return self._seq[self.__seqindex(index)].value
 
     def __delitem__(self, index):
+        self._checkReadonly()
         del self._seq[self.__seqindex(index)]
 
     length = property(
